@@ -11,6 +11,7 @@ git -C /repo worktree add -q --detach $wt HEAD || exit 2
 cleanup() { git -C /repo worktree remove --force $wt; rm -rf $out; }
 trap cleanup EXIT
 export PYTHONHASHSEED=0 PYTHONWARNINGS=ignore
+mkdir -p $out/tmp; export TMPDIR=$out/tmp
 cd /tmp
 PYTHONPATH=$wt/src timeout 600 /venv/bin/python $dir/demo_$n.py > /dev/null 2>&1; clean_rc=$?
 git -C $wt apply $dir/patch_$n.diff || { echo "SEED $tag patch does not apply"; exit 2; }
